@@ -1,7 +1,7 @@
 """C06 - A Tree's state depends only on where it is, not on how it got there (structural clauses)."""
 from __future__ import annotations
 
-from . import scopes
+from . import scopes, lib_kind
 from . import lib_tree, lib_guards, lib_module, lib_py, lib_mem
 
 LEVEL = "other"
@@ -26,6 +26,8 @@ def run(ctx):
     lib_guards.presence(ctx, seen, funcs=funcs, P=P)
     lib_module.parsed_used(ctx, P, only=ms)
     lib_py.unused_params(ctx, py, mods=("trees",), only=ps)
+    lib_kind.py_lints(ctx, py, mods=("trees",), only=ps)
+    lib_kind.py_copy_state(ctx, py, [("trees", "Tree")])
     lib_py.kw_forward(ctx, py, mods=("trees",), only=ps)
     lib_py.null_index(ctx, py)
     lib_mem.c_lints(ctx, ctx.program(), scopes.lib_scope("C06"))
